@@ -373,15 +373,6 @@ static void pool_tasks(Src& s) {
         ::unsetenv("OSMIUM_POOL_THREADS");
         ::unsetenv("OSMIUM_MAX_WORK_QUEUE_SIZE");
         VP_CHECK(pool.num_threads() == workers, "pool-size", "pool has " << pool.num_threads() << " threads, the documented rule gives " << workers << " | " << desc);
-        {
-            // the threads really exist
-            int t = perturb::thread_count();
-            for (int spin = 0; spin < 200 && t < baseline_threads + workers; ++spin) {
-                std::this_thread::sleep_for(std::chrono::milliseconds(1));
-                t = perturb::thread_count();
-            }
-            VP_CHECK(t >= baseline_threads + workers, "pool-size", "pool reports " << workers << " threads but only " << (t - baseline_threads) << " were started | " << desc);
-        }
         for (int i = 0; i < M; ++i) {
             switch (kind[static_cast<size_t>(i)]) {
                 case 0:
@@ -491,6 +482,20 @@ static void pool_accounting(Src& s) {
     if (vp::want_desc()) vp::describe(desc);
     std::promise<void> gate;
     std::shared_future<void> open = gate.get_future().share();
+    // whatever happens below (a failed check throws), the gate is opened before the pool is destroyed: workers left at a closed gate
+    // would make the pool's destructor wait for ever, and the engine would report the harness's own standstill as a deadlock of the
+    // library (it did, once, in the thorough tier under heavy load)
+    struct OpenGate {
+        std::promise<void>& p;
+        bool done = false;
+        void open_now() {
+            if (!done) {
+                done = true;
+                p.set_value();
+            }
+        }
+        ~OpenGate() { open_now(); }
+    };
     std::atomic<int> at_gate{0};
     std::vector<int> order;
     std::mutex order_mu;
@@ -498,6 +503,7 @@ static void pool_accounting(Src& s) {
     for (auto& r : ran) r = 0;
     {
         osmium::thread::Pool pool{workers, qsize};
+        OpenGate gate_guard{gate};  // (declared after the pool: opened before the pool's destructor runs)
         VP_CHECK(pool.queue_empty() && pool.queue_size() == 0, "pool-accounting", "a new pool reports a non-empty queue | " << desc);
         std::vector<std::future<void>> gates;
         for (int i = 0; i < workers; ++i) {
@@ -506,8 +512,8 @@ static void pool_accounting(Src& s) {
                 open.wait();
             }));
         }
-        for (int spin = 0; spin < 20000 && at_gate < workers; ++spin) std::this_thread::sleep_for(std::chrono::microseconds(200));
-        VP_CHECK(at_gate == workers, "pool-accounting", "only " << at_gate << " of " << workers << " workers picked up a task within 4 s | " << desc);
+        // (no time limit of the harness: if a worker never picks its task up the engine's watchdog sees the standstill)
+        while (at_gate < workers) std::this_thread::sleep_for(std::chrono::microseconds(200));
         VP_CHECK(pool.queue_empty() && pool.queue_size() == 0, "pool-accounting", "all " << workers << " workers hold a task, nothing else was submitted, but queue_size() = " << pool.queue_size() << " | " << desc);
         std::vector<std::future<std::unique_ptr<int>>> values;
         std::vector<std::future<void>> voids;
@@ -537,7 +543,7 @@ static void pool_accounting(Src& s) {
             VP_CHECK(pool.queue_size() == i + 1 && !pool.queue_empty(), "pool-accounting", "after " << (i + 1) << " tasks submitted to a pool whose workers are all busy: queue_size() = " << pool.queue_size() << ", queue_empty() = " << pool.queue_empty() << " | " << desc);
         }
         for (size_t i = 0; i < K; ++i) VP_CHECK(ran[i] == 0, "pool-accounting", "task " << i << " ran although every worker was busy | " << desc);
-        gate.set_value();
+        gate_guard.open_now();
         for (auto& g : gates) g.get();
         size_t vi = 0, oi = 0, di = 0;
         for (size_t i = 0; i < K; ++i) {
